@@ -10,8 +10,11 @@
    sources is -1 ([none_dir]).  `sources` are not stored by the hardware: read-back returns {None}. *)
 From Coq Require Import ZArith List Bool Lia.
 Require Import Rig.Model.Base Rig.Generated.GenRouter Rig.Model.Tables Rig.Model.Router.
-Require Import Rig.Spec.Tables Rig.Spec.Router.
+Require Import Rig.Model.TablesWrapper Rig.Model.RouterProgram.
+Require Import Rig.Spec.Tables Rig.Spec.Router Rig.Spec.TablesWrapper.
 Require Import Rig.Proofs.Tables Rig.Proofs.TablesFold Rig.Proofs.RouterWord Rig.Proofs.Router.
+Require Import Rig.Proofs.TablesWrapper Rig.Proofs.RouterHistory Rig.Proofs.RouterProgram.
+Require Rig.Model.Table Rig.Spec.Table.
 Import ListNotations.
 Open Scope Z_scope.
 
@@ -181,6 +184,86 @@ Theorem C10_load_tables_first_failure : forall pre m app_id x y es rest cs cs1,
     /\ (forall c es0, In (c, es0) pre -> table_installed m m' app_id c es0)
     /\ (forall c, ~ In c (map fst pre) -> cassoc c m' = cassoc c m).
 Proof. exact load_tables_first_failure. Qed.
+
+(* ================================================================================================ *)
+(** * The deprecated entry point build_routing_tables (Model/TablesWrapper.v) *)
+
+(* omit_default_routes=False: it IS routing_tree_to_tables -- same tables in the same order, same error --
+   for all inputs whatsoever (routing_tree_to_tables never gives a chip an empty table, so the wrapper's
+   `if table:` drops nothing).  All the theorems above therefore hold of it. *)
+Theorem C10_wrapper_false_is_routing_tree_to_tables : forall routes net_keys,
+  build_routing_tables routes net_keys false = routing_tree_to_tables routes net_keys.
+Proof. exact brt_false_eq. Qed.
+
+(* whatever the flag, it raises MultisourceRouteError exactly when routing_tree_to_tables does, with the
+   same arguments *)
+Theorem C10_wrapper_error : forall routes net_keys omit k m c,
+  build_routing_tables routes net_keys omit = RMultisource k m c
+  <-> routing_tree_to_tables routes net_keys = RMultisource k m c.
+Proof. exact brt_error. Qed.
+
+(* omit_default_routes=True (the default) on well-formed inputs: every chip's table is
+   remove_default_routes of the table routing_tree_to_tables gives it -- a chip whose table becomes empty
+   is left out of the dictionary, which is the same router contents --, the chips keep their order *)
+Theorem C10_wrapper_true_spec : forall routes net_keys,
+  inputs_ok routes net_keys ->
+  match routing_tree_to_tables routes net_keys with
+  | ROk T =>
+      exists T', build_routing_tables routes net_keys true = ROk T'
+                 /\ (forall c, table_at T' c = remove_default_routes (table_at T c))
+                 /\ subseq (map fst T') (map fst T)
+  | RMultisource k m c => build_routing_tables routes net_keys true = RMultisource k m c
+  | ROther => False
+  | RFuel => False
+  end.
+Proof. exact brt_true_spec. Qed.
+
+(* what is omitted is exactly what default routing delivers identically: the entries kept are kept
+   unchanged and in order; an entry is left out only if its packets come from exactly one link and go
+   exactly to the opposite link (C04's [default_routable] on the bit-set view [to_c04] of the entry); and
+   every 32-bit key is routed by the reduced table -- default routing included -- as by the full one
+   (C04's [route_eq]).  For every table, well formed or not. *)
+Theorem C10_remove_default_routes_spec : forall es,
+  subseq (remove_default_routes es) es
+  /\ (forall e, In e es -> ~ In e (remove_default_routes es) -> Spec.Table.default_routable (to_c04 e))
+  /\ Spec.Table.route_eq (map to_c04 es) (map to_c04 (remove_default_routes es)).
+Proof. exact remove_default_routes_spec. Qed.
+
+(* ================================================================================================ *)
+(** * Histories and programs with contexts (Model/Router.v run_history, Model/RouterProgram.v) *)
+
+(* One load, ANY machine state and ANY arguments (no well-formedness assumed): every command it issues
+   goes to the chip named; the first one, if any, is the allocation for the application named and for as
+   many entries as given; and unless it succeeds, the router entries of every chip are what they were. *)
+Theorem C10_load_step : forall m es x y a,
+  let r := load_routing_table_entries m es x y a in
+  Forall (item_at x y) (snd r)
+  /\ (forall it, hd_error (snd r) = Some it -> exists base, it = alloc_item x y a (len es) base)
+  /\ (fst (fst r) <> LOk -> forall c, routers (snd (fst r)) c = routers m c).
+Proof. exact load_step. Qed.
+
+(* the invariant of run_history ([history_ok], Spec/Router.v): statement by statement the above, on the
+   machine as the earlier statements left it; read-backs talk to the chip they name and change nothing *)
+Theorem C10_history_ok : forall ops m, history_ok m ops (fst (run_history m ops)).
+Proof. exact run_history_ok. Qed.
+
+(* A program of nested with / try blocks does to the machine exactly what the flat history of its executed
+   statements does, each addressed by the lexical rule of Model/RouterProgram.v (explicit argument, else
+   innermost enclosing block naming it, else app_id 66), and that history satisfies the invariant. *)
+Theorem C10_program_is_its_history : forall prog m,
+  let r := run_list ctx0 m prog in
+  let hops := map snd (fst (fst r)) in
+  snd (fst r) = snd (run_history m hops) /\ history_ok m hops (fst (run_history m hops)).
+Proof. exact program_is_its_history. Qed.
+
+(* the rule on the shape of the round-4 seeded change: after an inner block -- left normally or by an
+   exception caught outside it -- an implicitly addressed load goes to the chip of the enclosing block *)
+Theorem C10_after_inner_block : forall m x y x2 y2 a es es2 id id2,
+  let inner := SWith (mkKw (Some x2) (Some y2) None) [SLoad (mkKw None None None) es2 id2] in
+  let prog := [SWith (mkKw (Some x) (Some y) (Some a)) [STry [inner]; SLoad (mkKw None None None) es id]] in
+  map snd (fst (fst (run_list ctx0 m prog)))
+  = [HLoad x2 y2 a es2; HLoad x y a es].
+Proof. exact after_inner_block. Qed.
 
 (* ================================================================================================ *)
 (** * The hypotheses are satisfiable *)
